@@ -184,3 +184,12 @@ func (s *Sched) nextTimerInLocked() int64 {
 	}
 	return best
 }
+
+// JumpClock moves virtual time forward by d without firing the timers in between (a process
+// pause, a VM freeze or a wall-clock step): they all become overdue and fire at the next
+// clock steps, each observing the jumped time.
+func (s *Sched) JumpClock(d time.Duration) {
+	s.mu.Lock()
+	s.now += int64(d)
+	s.mu.Unlock()
+}
